@@ -7,6 +7,7 @@ package c08
 
 import (
 	"math"
+	"math/big"
 	"math/cmplx"
 	"testing"
 
@@ -24,7 +25,11 @@ type elemSpec[T any] struct {
 	aliases []int // alias patterns exercised
 	panics  bool  // documents a panic on length mismatch
 	numeric bool  // compare numerically (+0 == -0) instead of bit-for-bit
-	cum     int   // 1: cumulative sum, 2: cumulative product (classifies a mismatch that is a pure re-association)
+	// cumOK, when set, replaces the bit-for-bit comparison: cumulative sums
+	// and products are prefix reductions and are compared with a high
+	// precision reference within the rounding bound. It returns the first
+	// index whose value is outside the bound.
+	cumOK func(got, in []T) (i int, want, tol float64, ok bool)
 	// ref computes the expected destination from the original destination d
 	// (in-place functions) and the inputs.
 	ref func(d, s, t []T, a T) []T
@@ -92,7 +97,7 @@ var floatsElem = []elemSpec[float64]{
 	{name: "floats.ScaleTo", to: true, nIn: 1, aliases: toAliases1, panics: true,
 		ref:  func(_, s, _ []float64, a float64) []float64 { return mapF(len(s), func(i int) float64 { return a * s[i] }) },
 		call: func(d, s, _ []float64, a float64) []float64 { return floats.ScaleTo(d, a, s) }},
-	{name: "floats.CumSum", to: true, nIn: 1, aliases: toAliases1, panics: true, cum: 1,
+	{name: "floats.CumSum", to: true, nIn: 1, aliases: toAliases1, panics: true, cumOK: cumSumOK,
 		ref: func(_, s, _ []float64, _ float64) []float64 {
 			out := make([]float64, len(s))
 			acc := 0.0
@@ -107,7 +112,7 @@ var floatsElem = []elemSpec[float64]{
 			return out
 		},
 		call: func(d, s, _ []float64, _ float64) []float64 { return floats.CumSum(d, s) }},
-	{name: "floats.CumProd", to: true, nIn: 1, aliases: toAliases1, panics: true, cum: 2,
+	{name: "floats.CumProd", to: true, nIn: 1, aliases: toAliases1, panics: true, cumOK: cumProdOK,
 		ref: func(_, s, _ []float64, _ float64) []float64 {
 			out := make([]float64, len(s))
 			acc := 0.0
@@ -239,7 +244,7 @@ var cmplxsElem = []elemSpec[complex128]{
 			return mapC(len(s), func(i int) complex128 { return complex(f*real(s[i]), f*imag(s[i])) })
 		},
 		call: func(d, s, _ []complex128, a complex128) []complex128 { return cmplxs.ScaleRealTo(d, real(a), s) }},
-	{name: "cmplxs.CumSum", to: true, nIn: 1, aliases: toAliases1, panics: true, cum: 1,
+	{name: "cmplxs.CumSum", to: true, nIn: 1, aliases: toAliases1, panics: true, cumOK: cumSumCOK,
 		ref: func(_, s, _ []complex128, _ complex128) []complex128 {
 			out := make([]complex128, len(s))
 			var acc complex128
@@ -254,7 +259,7 @@ var cmplxsElem = []elemSpec[complex128]{
 			return out
 		},
 		call: func(d, s, _ []complex128, _ complex128) []complex128 { return cmplxs.CumSum(d, s) }},
-	{name: "cmplxs.CumProd", to: true, nIn: 1, aliases: toAliases1, panics: true, cum: 2,
+	{name: "cmplxs.CumProd", to: true, nIn: 1, aliases: toAliases1, panics: true, cumOK: cumProdCOK,
 		ref: func(_, s, _ []complex128, _ complex128) []complex128 {
 			out := make([]complex128, len(s))
 			var acc complex128
@@ -326,35 +331,104 @@ var complexOps = elemOps[complex128]{
 }
 
 // mismatchKey classifies a mismatch at index i of an element-wise result:
-// "signed-zero" when the values are numerically equal, "rounding-order" when a
-// cumulative sum/product differs from the sequential definition by no more
-// than re-association of the same terms can explain, "value" otherwise.
-func mismatchKey[T any](sp elemSpec[T], ops elemOps[T], got, want []T, in []T, i int) string {
+// "signed-zero" when the values are numerically equal, "value" otherwise.
+func mismatchKey[T any](ops elemOps[T], got, want []T, i int) string {
 	if ops.numEq(got[i], want[i]) {
 		return "signed-zero"
 	}
-	diff := ops.absDiff(got[i], want[i])
-	switch sp.cum {
-	case 1:
-		S := 0.0
-		for j := 0; j <= i; j++ {
-			S += ops.abs(in[j])
+	return "value"
+}
+
+// cumSumOK checks every prefix sum within 2(i+4)u*sum|s[j]| of the
+// double-double prefix sum; prefixes whose absolute sum is in the overflow
+// range are skipped. The sign of a zero is not asserted.
+func cumSumOK(got, in []float64) (int, float64, float64, bool) {
+	var d, a vk.DD
+	for i, v := range in {
+		d.Add(v)
+		a.Add(math.Abs(v))
+		S := a.Float()
+		if !(S < math.MaxFloat64/4) {
+			return 0, 0, 0, true
 		}
-		if diff <= vk.SumBound(i+1, vk.Eps, S) || !(S < math.MaxFloat64/4) {
-			return "rounding-order"
-		}
-	case 2:
-		// With a wide exponent range re-association also changes where
-		// overflow and underflow happen.
-		mags := make([]float64, i+1)
-		for j := range mags {
-			mags[j] = ops.abs(in[j])
-		}
-		if diff <= 4*float64(i+4)*vk.Eps*ops.abs(want[i]) || log2Sum(mags) > 900 {
-			return "rounding-order"
+		tol := vk.SumBound(i+1, vk.Eps, S) + float64(i+1)*5e-324
+		if !(math.Abs(got[i]-d.Float()) <= tol) {
+			return i, d.Float(), tol, false
 		}
 	}
-	return "value"
+	return 0, 0, 0, true
+}
+
+// cumProdOK checks every prefix product within the relative bound 2(i+4)u of
+// the exact product while the factors stay far from overflow and underflow
+// in every association order (sum of |log2| below 900).
+func cumProdOK(got, in []float64) (int, float64, float64, bool) {
+	p := new(big.Float).SetPrec(300).SetInt64(1)
+	l2 := 0.0
+	for i, v := range in {
+		if !isFinite(v) {
+			return 0, 0, 0, true
+		}
+		if v != 0 {
+			l2 += math.Abs(math.Log2(math.Abs(v)))
+		}
+		if l2 > 900 {
+			return 0, 0, 0, true
+		}
+		p.Mul(p, bigOf(v))
+		want := bigF64(p)
+		tol := 2 * float64(i+4) * vk.Eps * math.Abs(want)
+		if !(math.Abs(got[i]-want) <= tol) {
+			return i, want, tol, false
+		}
+	}
+	return 0, 0, 0, true
+}
+
+func cumSumCOK(got, in []complex128) (int, float64, float64, bool) {
+	re, im := make([]float64, len(in)), make([]float64, len(in))
+	gr, gi := make([]float64, len(in)), make([]float64, len(in))
+	for i := range in {
+		re[i], im[i], gr[i], gi[i] = real(in[i]), imag(in[i]), real(got[i]), imag(got[i])
+	}
+	if i, w, t, ok := cumSumOK(gr, re); !ok {
+		return i, w, t, false
+	}
+	return cumSumOK(gi, im)
+}
+
+func cumProdCOK(got, in []complex128) (int, float64, float64, bool) {
+	re := new(big.Float).SetPrec(300).SetInt64(1)
+	im := new(big.Float).SetPrec(300)
+	l2, mod := 0.0, 1.0
+	mul := func(a, b *big.Float) *big.Float { return new(big.Float).SetPrec(300).Mul(a, b) }
+	for i, v := range in {
+		m := cmplx.Abs(v)
+		if !isFinite(m) {
+			return 0, 0, 0, true
+		}
+		for _, c := range []float64{real(v), imag(v)} {
+			if c != 0 {
+				l2 += math.Abs(math.Log2(math.Abs(c))) // components, so that no partial product under/overflows
+			}
+		}
+		if l2 > 900 {
+			return 0, 0, 0, true
+		}
+		a, b := bigOf(real(v)), bigOf(imag(v))
+		nr := new(big.Float).SetPrec(300).Sub(mul(re, a), mul(im, b))
+		ni := new(big.Float).SetPrec(300).Add(mul(re, b), mul(im, a))
+		re, im = nr, ni
+		mod *= m
+		tol := 4*float64(i+4)*vk.Eps*mod + 5e-324
+		if !(math.Abs(real(got[i])-bigF64(re)) <= tol) {
+			return i, bigF64(re), tol, false
+		}
+		if !(math.Abs(imag(got[i])-bigF64(im)) <= tol) {
+			return i, bigF64(im), tol, false
+		}
+	}
+	return 0, 0, 0, true
 }
 
 // runElem executes one element-wise case.
@@ -444,9 +518,15 @@ func runElem[T any](sub string, c vcase, sp elemSpec[T], data func(slot int) []T
 	if len(d) != n || len(want) != n {
 		return vk.Failf(sp.name+"/length", "destination length %d, want %d", len(d), n)
 	}
+	if sp.cumOK != nil {
+		if i, w, tol, ok := sp.cumOK(d, sData); !ok {
+			return vk.Failf(sp.name+"/bound", "%v: dst[%d] = %v, exact prefix value %v, bound %g", c, i, d[i], w, tol)
+		}
+		want = append([]T(nil), d...) // the returned slice must hold the same values
+	}
 	for i := range want {
 		if !same(d[i], want[i]) {
-			return vk.Failf(sp.name+"/"+mismatchKey(sp, ops, d, want, sData, i), "%v: dst[%d] = %v, scalar loop gives %v", c, i, d[i], want[i])
+			return vk.Failf(sp.name+"/"+mismatchKey(ops, d, want, i), "%v: dst[%d] = %v, scalar loop gives %v", c, i, d[i], want[i])
 		}
 	}
 	if sp.to {
@@ -549,12 +629,12 @@ func drawElem[T any](specs []elemSpec[T]) func(t *rapid.T) vcase {
 
 func TestFloatsElem(t *testing.T) {
 	grid := elemGrid(floatsElem)
-	vk.Enumerate(t, "floats-elem-grid", len(grid), func(i int) vcase { return grid[i] }, checkFloatsElem)
+	vk.Enumerate(t, "floats-elem", len(grid), func(i int) vcase { return grid[i] }, checkFloatsElem)
 	vk.Run(t, "floats-elem", vk.Opts{Quick: 12000, Thorough: 150000, NoCrumb: true}, drawElem(floatsElem), checkFloatsElem)
 }
 
 func TestCmplxsElem(t *testing.T) {
 	grid := elemGrid(cmplxsElem)
-	vk.Enumerate(t, "cmplxs-elem-grid", len(grid), func(i int) vcase { return grid[i] }, checkCmplxsElem)
+	vk.Enumerate(t, "cmplxs-elem", len(grid), func(i int) vcase { return grid[i] }, checkCmplxsElem)
 	vk.Run(t, "cmplxs-elem", vk.Opts{Quick: 12000, Thorough: 150000, NoCrumb: true}, drawElem(cmplxsElem), checkCmplxsElem)
 }
